@@ -40,6 +40,7 @@ type hval struct {
 	items  []*hval // list items, object field values, map: k0 v0 k1 v1 ...
 	fnames []string
 	ord    int // ordinal of this list/map/object among the openings of the stream
+	compact bool // a date read from the compact form x4b
 }
 
 type hstate struct {
@@ -280,7 +281,7 @@ func (p *hparser) value() *hval {
 	case t == 0x4a:
 		return &hval{k: hDate, z: sbe(p.take(8))}
 	case t == 0x4b:
-		return &hval{k: hDate, z: sbe(p.take(4)) * 60000}
+		return &hval{k: hDate, z: sbe(p.take(4)) * 60000, compact: true}
 	case isStringTag(t):
 		return &hval{k: hString, s: p.parseString(t)}
 	case isBinaryTag(t):
